@@ -30,7 +30,34 @@ func main() {
 	verbose := flag.Bool("v", false, "verbose")
 	build := flag.String("build", "", "name of the build variant (recorded in replay files)")
 	dump := flag.Int64("dump", -1, "print the script of run index N and exit")
+	cur := flag.String("cur", "", "file that always holds the index of the run being executed (read by the driver if this process dies)")
+	emit := flag.String("emit", "", "write the script of run index -from as a replay file for a process crash (class in -emitclass) and exit")
+	emitClass := flag.String("emitclass", "", "violation class recorded by -emit")
 	flag.Parse()
+	if *emit != "" {
+		e := sim.Engines[*prop]
+		if e == nil {
+			os.Exit(2)
+		}
+		sc := e.Gen(sim.NewRand(sim.RunSeed(*seed, *prop, *from)), *tier)
+		b, _ := json.Marshal(sc)
+		v := &sim.Violation{Property: *prop, Oracle: "crash", Class: *emitClass, Detail: "the process executing this script died: " + *emitClass + " (not minimised: a dead process cannot shrink its script)"}
+		rp := sim.Replay{Property: *prop, Seed: *seed, RunIndex: *from, Violation: v, Script: b, Build: *build}
+		rb, _ := json.MarshalIndent(rp, "", " ")
+		if err := os.WriteFile(*emit, rb, 0644); err != nil {
+			fmt.Fprintln(os.Stderr, "worker: cannot write replay:", err)
+			os.Exit(2)
+		}
+		return
+	}
+	var curF *os.File
+	if *cur != "" {
+		var err error
+		if curF, err = os.Create(*cur); err != nil {
+			fmt.Fprintln(os.Stderr, "worker:", err)
+			os.Exit(2)
+		}
+	}
 	if *dump >= 0 {
 		dumpScript(*prop, *seed, uint64(*dump), *tier)
 		return
@@ -63,6 +90,9 @@ func main() {
 		if time.Since(t0) > *budget {
 			res.StoppedBy = "budget"
 			break
+		}
+		if curF != nil {
+			curF.WriteAt([]byte(fmt.Sprintf("%020d", i)), 0)
 		}
 		rs := sim.RunSeed(*seed, *prop, i)
 		sc := e.Gen(sim.NewRand(rs), *tier)
